@@ -24,7 +24,7 @@ from ..fl import dec, enc
 # (roots, children per root or 0 for a one-level tree)
 SHAPES_QUICK = [(2, 0), (2, 2), (1, 3), (2, 1)]
 SHAPES_THOROUGH = [(2, 0), (2, 2), (1, 3), (3, 2), (2, 1), (3, 0)]
-STARTS = ["rest", "leaf", "object"]
+STARTS = ["rest", "leaf", "object", "shared"]
 MUTS = ["pos_inplace", "pos_rebind", "vel_set", "vel_none", "ts"]
 
 
@@ -76,6 +76,15 @@ class World:
                 b.children[0].value.velocity, b.children[0].value.time_stamp = [1.0, 0.0], Time(1.0, 0.5)
                 model[(0,)][1:] = [[w, 0.0], (1.0, 0.5)]
                 model[(0, 0)][1:] = [[1.0, 0.0], (1.0, 0.5)]
+            elif start == "shared":
+                # a rigid move committed the way a handler may write it: ONE velocity list and ONE Time object assigned
+                # to the composite object and all its point masses (value-equal to "object", but aliased)
+                vel, ts = [1.0, 0.0], Time(1.0, 0.5)
+                b.value.velocity, b.value.time_stamp = vel, ts
+                model[(0,)][1:] = [[1.0, 0.0], (1.0, 0.5)]
+                for c, ch in enumerate(b.children):
+                    ch.value.velocity, ch.value.time_stamp = vel, ts
+                    model[(0, c)][1:] = [[1.0, 0.0], (1.0, 0.5)]
             else:
                 b.value.velocity, b.value.time_stamp = [1.0, 0.0], Time(1.0, 0.5)
                 model[(0,)][1:] = [[1.0, 0.0], (1.0, 0.5)]
